@@ -254,7 +254,8 @@ def mlpred_rule(ctx, r):
                 if call.is_(*names):
                     return val
             return None
-        sx = Sccp(f, call_model=model).run([(0, {})])
+        from ..flow import combinator_model
+        sx = Sccp(f, call_model=combinator_model(facts, model)).run([(0, {})])
         return {x for v in sx.ret_values.values() for x in value_set(v)}
     rows = [
         ("multi_line off", [((ML_,), I(0))], {I(0)}),
